@@ -104,7 +104,7 @@ CLAIMS = {
              'mode may be assign; the in-place protocol of another node is entered only through the builder whose escape test keeps dependents/block-order/NotImplemented in order with the copy/iadd fallback; every '
              'expression/statement class of the printer covers all its fields (variables, printing, emptiness, rerun filter) and parenthesises operands; every compiled field is an announced dependency; '
              '_compile_expression arities match. Each clause is necessary for a faithful translation of every DAG shape (a missing zero fill survives the suite because numpy.empty often returns zero pages); that loop '
-             'grouping, block ids, Assemble index transposition and the numpy-specific rewrites compute the right values is NOT decided. Further clauses: every Array-typed constructor field is an announced dependency; dependency edges are recorded before the compiled-cache lookup; shared allocation/lock pairing under parallel compilation; loop nodes decline in-place compilation when the destination is defined later; einsum labels and axis positions are kind-typed and never mixed in the fusion rules.',
+             'grouping, block ids, Assemble index transposition and the numpy-specific rewrites compute the right values is NOT decided. Further clauses: every Array-typed constructor field is an announced dependency; dependency edges are recorded before the compiled-cache lookup; shared allocation/lock pairing under parallel compilation; loop nodes decline in-place compilation when the destination is defined later; einsum labels and axis positions are kind-typed and never mixed in the fusion rules. A possibly-assign mode is never forwarded to one term while others are accumulated into the same destination without a zero fill; the constant-cache protocol (first_run dispatch) is checked as in C03.',
         note='Trusts: CPython ast; the table of owned-storage constructors and view constructors (transpose = full cover, einsum diagonal = partial, slices = loop partition) confirmed by reading.',
         design='DESIGN.md section 2, C02'),
     'C03': dict(
@@ -112,7 +112,7 @@ CLAIMS = {
         text='PARTIAL. Decides the hidden-state protocols: no emitted in-place write can reach an argument, constant or cached value and the rerun filter reaches every nested statement; the constant-intermediate cache '
              'collects exactly the argument-free Array nodes, freezes them read-only, declares them global with first_run, filters the rerun body before the freeze and clears first_run last; isconstant/arguments '
              'overrides are conservative; arguments are ingested by asarray with a shape test; solver.System memo slots hold a matrix only under is_constant_matrix. Violating any of them makes a later call depend on an '
-             'earlier one for some call sequence; aliasing of returned arrays through zero-stride views and the memo tables of function.Basis are NOT decided. R03.6 (cached intermediates must be read-only before a view of them can exist) is violated on the pinned commit and reported as known finding F12.',
+             'earlier one for some call sequence; aliasing of returned arrays through zero-stride views and the memo tables of function.Basis are NOT decided. R03.6 (cached intermediates must be read-only before a view of them can exist) is violated on the pinned commit and reported as known finding F12. R03.7: the solver front ends never store into arrays taken from arguments/constrain (ownership typestate per path); R03.8: the buffer-keyed memo keys arrays by address, strides, shape and element type.',
         note='Trusts: CPython ast; NumPy semantics of setflags(write=False) and asarray.',
         design='DESIGN.md section 2, C03'),
     'C06': dict(
